@@ -232,8 +232,8 @@ if live_finding("F06c"):
 # ------------------------------------------------------------------------------------------------- jsonify_python_specific_types: booleans / None at ANY depth
 HY = "schemathesis.specs.openapi._hypothesis:"
 Leaf = OneOf(Bool, NoneT, Str)
-Inner = OneOf(Bool, NoneT, Str, ListOf(Leaf, [0, 1]), DictOf(optional={"c": Leaf}))
-Elem = OneOf(Bool, NoneT, Str, ListOf(Inner, [0, 1, 2]), DictOf(optional={"c": Inner}))
+Inner = OneOf(Bool, NoneT, Str, ListOf(Leaf, [0, 1], widen=False), DictOf(optional={"c": Leaf}))
+Elem = OneOf(Bool, NoneT, Str, ListOf(Inner, [0, 1, 2], widen=False), DictOf(optional={"c": Inner}))
 
 
 def _jsonified(it, v):
